@@ -127,6 +127,24 @@ DecMismatch(s, d) ==
   \cup (IF ~SharedIffLinked(s, d) THEN {"SharedIffLinked"} ELSE {})
   \cup (IF ~QueryAgreesWithImage(d) THEN {"QueryAgreesWithImage"} ELSE {})
 
+\* ---- the other readers of a freshly opened image: walk(), get_record + full_path_from_dirrecord ----
+ObsWalk(list) == {<<x.d, Range(x.ds), Range(x.fs)>> : x \in Range(list)}
+\* no directory yielded twice, no name listed twice
+WalkExact(list) == /\ Len(list) = Cardinality({x.d : x \in Range(list)})
+                   /\ \A x \in Range(list) : Len(x.ds) + Len(x.fs) = Cardinality(Range(x.ds) \cup Range(x.fs))
+WalkOK(t, list) == ObsWalk(list) = WalkOf(t) /\ WalkExact(list)
+FullPathOK(t, udfns, list) == /\ {x.p : x \in Range(list)} = DOMAIN t
+                              /\ \A x \in Range(list) : SameObject(t, udfns, x.p, x.q)
+ReadMismatch(s, r) ==
+       (IF ~WalkOK(s.iso, r.wiso) THEN {"Tree_walk_iso"} ELSE {})
+  \cup (IF s.cfg.rr # "" /\ ~WalkOK(s.iso, r.wrrv) THEN {"Tree_walk_rr"} ELSE {})
+  \cup (IF s.cfg.joliet # 0 /\ ~WalkOK(s.jol, r.wjol) THEN {"Tree_walk_jol"} ELSE {})
+  \cup (IF s.cfg.udf /\ ~WalkOK(s.udf, r.wudf) THEN {"Tree_walk_udf"} ELSE {})
+  \cup (IF ~FullPathOK(s.iso, FALSE, r.fiso) THEN {"Tree_fullpath_iso"} ELSE {})
+  \cup (IF s.cfg.rr # "" /\ ~FullPathOK(s.iso, FALSE, r.frrv) THEN {"Tree_fullpath_rr"} ELSE {})
+  \cup (IF s.cfg.joliet # 0 /\ ~FullPathOK(s.jol, FALSE, r.fjol) THEN {"Tree_fullpath_jol"} ELSE {})
+  \cup (IF s.cfg.udf /\ ~FullPathOK(s.udf, TRUE, r.fudf) THEN {"Tree_fullpath_udf"} ELSE {})
+
 \* names of the clauses in which projection o differs from model state s
 \* (\E over singleton sets binds evaluated values once; LET bodies are re-evaluated per use)
 MismatchOf(s, o, ti, tj, tu, tr) ==
@@ -144,6 +162,7 @@ MismatchOf(s, o, ti, tj, tu, tr) ==
   \cup (IF s.npvd # o.npvd THEN {"NumPvd"} ELSE {})
   \cup (IF ~EltMatches(s, o.elt) THEN {"EltRefs"} ELSE {})
   \cup (IF o.dec.on THEN DecMismatch(s, o.dec) ELSE {})
+  \cup (IF o.rd.on /\ s.phase # "uninit" THEN ReadMismatch(s, o.rd) ELSE {})
   \* (a closed object has nothing to project: the harness logs "no_observation")
   \cup (IF s.phase = "uninit" THEN (IF o.err = <<"no_observation">> THEN {} ELSE {"ObjectStillOpen"})
         ELSE IF o.err # <<>> THEN {"ProjectionError"} ELSE {})
